@@ -256,15 +256,19 @@ def check(ctx):
     # (a) model checking of the design module: safety on all interleavings with racing steps, step-atomic variant, liveness
     c.tlc_must_pass(ctx, "design-racing", MODS, "Progress_quick.cfg" if quick else "Progress_thorough.cfg", timeout=3000)
     c.tlc_must_pass(ctx, "design-atomic", MODS, "Progress_sync_quick.cfg", timeout=3000)
-    c.tlc_must_pass(ctx, "live-free", MODS, "Progress_live.cfg", timeout=3000)
-    c.tlc_must_pass(ctx, "live-loop-cancel", MODS, "Progress_loop.cfg", timeout=3000)
-    c.tlc_must_pass(ctx, "live-loop", MODS, "Progress_loop_nocancel.cfg", timeout=3000)
+    sfx = ".cfg" if quick else "_thorough.cfg"
+    c.tlc_must_pass(ctx, "live-free", MODS, "Progress_live" + sfx, timeout=3000)
+    c.tlc_must_pass(ctx, "live-loop-cancel", MODS, "Progress_loop" + sfx, timeout=3000)
+    c.tlc_must_pass(ctx, "live-loop", MODS, "Progress_loop_nocancel" + sfx, timeout=3000)
     # documented limit, shown on the model: dropping does not cancel => a cancel-only worker never ends (TLC must find it)
     leak = c.tlc(os.path.join(c.SPEC, MODS), os.path.join(c.SPEC, "mc", "Progress_dropleak.cfg"), ctx.path("tlc-dropleak"),
                  timeout=3000, keep_log=ctx.path("tlc-dropleak.log"))
     ctx.add_tlc("drop-leak (expected counter-example)", leak)
     if "DropNeverLeaks" not in leak.out or "violated" not in leak.out:
         raise c.ToolError("the model no longer shows the drop-without-cancel leak (log %s)" % ctx.path("tlc-dropleak.log"))
+    if not quick:
+        # the variant of proposed_fixes/X02-drop-cancels.diff on the model: no leak, contract and all other properties kept
+        c.tlc_must_pass(ctx, "drop-cancels-variant", MODS, "Progress_dropfix.cfg", timeout=3000)
     ctx.extra["drop_without_cancel_leaks_cancel_only_worker"] = "counter-example found by TLC on the model (documented limit, not claimed)"
     # (b) scenario emission: every maximal behaviour of the step-atomic model with the predicted observations
     res = c.tlc_must_pass(ctx, "emit", MODS, "Progress_emit_quick.cfg" if quick else "Progress_emit_thorough.cfg", timeout=3000)
